@@ -331,10 +331,10 @@ theorem safe_ukf_correct_partial (additive : Bool) (I : Layout) (K : Nat) (C : L
     component count and its own subset of failing model calls (after fix 5117f2c a failed correction no longer leaves the
     innovations of an earlier success paired with the mixture of the failed transform). -/
 theorem safe_ukf_call_sequence_partial (additive : Bool) (I : Layout) (M : MMod) (steps : List CStep)
-    (h : ukfSeqValid additive I M steps) (hs : ukfSupported I M) : (ukfSeqCase additive I M steps).Safe := by
+    (h : ukfSeqValid additive I M steps) (hs : ∀ s ∈ steps, ukfSupported I (M.withFlags s)) : (ukfSeqCase additive I M steps).Safe := by
   unfold ukfSeqCase
   simp only [safe_bind, safe_pure, and_true]
-  exact ukfSeq_safe additive I M hs steps UKFMem.init h
+  exact ukfSeq_safe additive I M steps UKFMem.init h hs
 
 /-- the defect fixed by 5117f2c as the model sees it: WITHOUT the reset, success (2 components) followed by a failed
     prediction leaves 2 innovation columns and a 1-component default mixture, and `getLikelihood()` addresses `covariance(1)` -/
@@ -608,14 +608,41 @@ theorem safe_sis (N lin circ : Nat) (d : Dim) (nx ny hm steps : Nat) (resampleAt
   · simp only [safe_bind, safe_pure, and_true]
     exact sisRun_safe N lin circ d nx ny hm steps resampleAt gt hN hd
 
-/-- Any number of successive `correct()` / `getLikelihood()` calls on ONE SUKFCorrection object: the members are
-    overwritten stage by stage, so innovations of an earlier success can meet sigma points of a later call with another
-    component count — the shapes stay consistent (stale values are C05's matter, not a size error). -/
+/-- Any number of successive `correct()` / `getLikelihood()` calls on ONE SUKFCorrection object, each call with its own
+    component count, its own MEASUREMENT SIZE (time-varying model) and its own subset of failing model calls: since fix
+    9d4c3da a correction first forgets the innovations of the previous call, so `getLikelihood()` never pairs innovations
+    of one call with propagated sigma points of another. -/
 theorem safe_sukf_call_sequence_partial (I : Layout) (M : MMod) (sub : Nat) (reduced : Bool) (steps : List CStep)
     (h : sukfSeqValid I M sub reduced steps) (hs : sukfSupported I) : (sukfSeqCase I M sub reduced steps).Safe := by
   unfold sukfSeqCase
   simp only [safe_bind, safe_pure, and_true]
-  exact sukfSeq_safe I M sub reduced hs steps SUKFMem.init (Or.inl rfl) h
+  exact sukfSeq_safe I M sub reduced hs steps SUKFMem.init h
+
+/-- the defect fixed by 9d4c3da as the model sees it: WITHOUT the reset, a success with a 4-row measurement followed by a call
+    with a 6-row measurement whose innovation fails leaves 4-row innovations next to 6-row propagated sigma points, and
+    `getLikelihood()` builds blocks of the wrong height (sub-size 2, reduced covariance) -/
+theorem unsafe_sukf_stale_likelihood_before_fix_counterexample :
+    ¬ (sukfLikelihood ⟨4, 1⟩ ⟨6, 5⟩ 2 2 true).Safe ∧ (sukfLikelihood ⟨0, 0⟩ ⟨6, 5⟩ 2 2 true).Safe := by decide
+
+/-- Any call sequence on ONE KFCorrection object (failed corrections keep the innovations and measurement covariances of the
+    last success: stale but of matching sizes) with `getLikelihood()` after every call -/
+theorem safe_kf_call_sequence (I : Layout) (hm hn ysize : Nat) (steps : List CStep) (h : kfSeqValid I hm hn ysize steps) :
+    (kfSeqCase I hm hn ysize steps).Safe := by
+  unfold kfSeqCase
+  split
+  · simp
+  · simp only [safe_bind, safe_pure, and_true]
+    exact kfSeq_safe I hm hn ysize steps ⟨⟨0, 0⟩, 1⟩ (Or.inl rfl) h
+
+/-- One EstimatesExtraction object, the method changed between extractions in any order (a map-based method asked through the
+    two-argument overload is refused and leaves the window untouched), any number of calls -/
+theorem safe_estimates_extraction_method_sequence (ls cs N : Nat) (steps : List (EMethod × Bool)) (hN : 1 ≤ N) :
+    (eeSeqCase ls cs N steps).Safe := by
+  unfold eeSeqCase
+  simp only [safe_bind, safe_pure, and_true]
+  apply eeSeq_safe
+  · exact ⟨by simp [Hist.uniform, Hist.new, EEState.new], by simp [Hist.bounded, Hist.new, EEState.new], by simp [EEState.new, Hist.new]⟩
+  · exact ⟨rfl, hN, rfl, fun _ => ⟨rfl, rfl, rfl⟩⟩
 
 /-- `ParticleSet::resize` keeps `state_` consistent with the mixture bookkeeping (fix 668e0de) -/
 theorem ps_resize_consistent (p : PSStore) (K dl dc : Nat) (h : p.wf) : (psResize p K dl dc).wf :=
